@@ -127,7 +127,9 @@ def scenario(draw, n_contests=(1, 2), kinds=None, audit_types=("CARD_COMPARISON"
     extra = "X"  # an un-audited contest that only varies card styles
     n = draw(st.integers(*n_cards))
     any_one = any(s["audit_type"] == "ONEAUDIT" for s in specs.values())
-    pooled = sorted(draw(st.sets(st.sampled_from(["p1", "p2", "p3"])))) if (with_pools and any_one) else []
+    # batch labels are arbitrary objects: strings, integers (a batch may well be numbered 0) or an empty string
+    labels = draw(st.sampled_from([["p1", "p2", "p3"], ["p1", "p2", "p3"], [0, 1, 2], ["", "a", "b"]]))
+    pooled = sorted(draw(st.sets(st.sampled_from(labels)))) if (with_pools and any_one) else []
     cards = []
     for i in range(n):
         ph = with_phantoms and draw(st.integers(0, 9)) == 0
@@ -142,7 +144,7 @@ def scenario(draw, n_contests=(1, 2), kinds=None, audit_types=("CARD_COMPARISON"
                 votes[cid] = v
         if draw(st.integers(0, 3)) == 0:
             votes[extra] = {}
-        tp = draw(st.sampled_from(["p1", "p2", "p3"])) if with_pools else None
+        tp = draw(st.sampled_from(labels)) if with_pools else None
         cards.append({"id": f"1-{i // 7}-{i}", "votes": votes, "phantom": ph, "tally_pool": tp, "pool": tp in pooled})
     mvrs = []
     for i, c in enumerate(cards):
